@@ -373,7 +373,8 @@ def write_evidence(prop, a, seed, summary, obligations, reports, known_hits, vio
         "checker_cmd": f"./check {prop} --tier {a.tier}",
         "trusted_base": TRUSTED_BASE,
         "explanation": "contract-based deductive verification: obligations generated from the real source on every run by symbolic execution of every path; 'obligations/discharged' count only unbounded obligations (symbolic integers, loop-free or schematic); bounded_obligations are stand-ins with a stated bound and are not counted as proved; an obligation excused by a committed known finding is counted as discharged only outside the excused region",
-        "bounded_obligations": {"count": len(bounded_ids), "discharged": sum(1 for o in bounded_ids if summary[o] == "discharged" or o in known_ids), "bounds": sorted({str(obligations[o][0]["bounded"]) for o in bounded_ids})},
+        "bounded_obligations": {"count": len(bounded_ids), "discharged": sum(1 for o in bounded_ids if summary[o] == "discharged" or o in known_ids), "bounds": sorted({str(obligations[o][0]["bounded"]) for o in bounded_ids}),
+                                "lifted_to_every_length_by_loop_independence": sum(1 for o in bounded_ids if obligations[o][0].get("lifts"))},
         "known_findings": sorted({f"{e['obligation']} :: {e['what']}" for _, e, _, _ in known_hits}),
         "functions_under_contract": funcs,
         "functions_inlined": inlined,
